@@ -110,3 +110,11 @@ Definition PMSA_check (s : machine) (nregions : nat) (va : Z) (ispriv iswrite : 
            if ap_denies ap ispriv iswrite then P_abort false else P_ok
        | None => if (bit (sctlr_of s) 17 =? 0) || negb ispriv then P_abort true else P_ok
        end.
+
+(* ---------- instruction fetch (A2.3, A6.1): little-endian whatever CPSR.E; a Thumb halfword whose top five bits are 11101,
+   11110 or 11111 is the first half of a 32-bit instruction hw1:hw2 ---------- *)
+Definition fetch_spec (s : machine) : Z :=
+  let pc := pc_of s in
+  if iset_of s =? 0 then hub_read (mem s) pc 4
+  else let hw1 := hub_read (mem s) pc 2 in
+       if 29 <=? hw1 / 2 ^ 11 then hw1 * 2 ^ 16 + hub_read (mem s) ((pc + 2) mod 2 ^ 32) 2 else hw1.
